@@ -45,6 +45,16 @@ RULE = ("random cases in blocks: a dataset (1-4 dimensions, axis lengths 1-4 (th
         "all axes / (), finite, positive, n_chunk_max from 1 up) or a histogram query (attribute kind, weights, range "
         "kind incl. reversed / data-valued ends / integer-aligned edges, 1-12 bins, linear or log, selection kind; one in "
         "five over two attributes); "
+        "every dataset also carries float32 / uint8 / int8 / big-endian float and int attributes, a magnitude attribute "
+        "(scale 1e-10 .. 1e12 with values agreeing to a relative 1e-9), its float column in a random memory layout "
+        "(C, Fortran, transposed, strided, reversed, stride-0 broadcast) and - 1-d - labels sharing prefixes; one query in "
+        "five passes numpy scalars for axis / percentile / n_chunk_max / bins / range, one in a hundred names the attribute by "
+        "its label; views also as () and as a list of slices; "
+        "plus history blocks (4-7 subset-state objects, incl. s & s, s | t and a copy, reused for ~26 statistics / "
+        "histograms each, interleaved with raising calls and repeated calls, masks re-read every 5 steps), viewer-history "
+        "blocks (one histogram layer and one profile layer whose settings and subset state change step by step, incl. a "
+        "range end moved by a relative 1e-12 across a data value), big blocks (300 .. 5000 rows, chunk limits far below / "
+        "at / above the size with selections leaving chunks empty), dask blocks (the float column as a chunked dask array), "
         "plus pixel-aligned blocks (2-3 datasets without coordinates whose pixel axes are linked by LinkSame up to an axis "
         "permutation - identity, swaps, 3-d cyclic - with masks, all six statistics (view None and with views, every axis "
         "kind) and histograms of one dataset under a SliceSubsetState / PixelSubsetState defined on the other), "
@@ -57,7 +67,8 @@ RULE = ("random cases in blocks: a dataset (1-4 dimensions, axis lengths 1-4 (th
         "chunking class, shape; for histograms attribute kind, weights, range kind, bins, log, selection kind); "
         "non-trivial = at least two values qualify and (for statistics) a selection, view, axis or chunk limit is in play.")
 ASSUMPTIONS = ["the reference in vf/lib_C10_oracle.py (sort, fsum, linear-interpolation percentile, floor binning) is the definition",
-               "values agree when within 1e-9 relative (scale = largest expected magnitude)",
+               "values agree when within 1e-9 relative to the largest expected magnitude or - for results that cancel - to the largest magnitude among the values that went in; no absolute floor; float32 attributes reduced without an axis are held to 6e-6 (float32 rounding)",
+               "percentiles are passed as Python numbers, np.int64 or np.float64 (a float32 percentile makes numpy interpolate with float32 weights)",
                "a value within 1e-7 bin widths of an interior histogram edge may be counted in either neighbouring bin; totals must be exact",
                "two-attribute histograms with a value on an interior edge of either axis are compared by total only (tallied)",
                "finite=False on data whose viewed values contain NaN/inf, log histograms with a non-positive range end, zero-width ranges, ranges narrower than 1e-3 of their ends' magnitude and non-finite weights are outside the statement: tallied, not compared",
@@ -477,21 +488,29 @@ def run_stat_query(ctx, rng, ds, q, api="compute_statistic", indexed=None, sel=N
     if q["n_chunk_max"] is not None:
         kw["n_chunk_max"] = q["n_chunk_max"]
     # the same arguments as numpy scalars / the attribute named by its label (audit themes 2 and 3)
-    style = q.get("argument_style") or ("numpy_scalars_and_label" if rng.random() < 0.2 else "plain")
+    style = q.get("argument_style") or ("numpy_scalars" if rng.random() < 0.2 else "plain")
+    feats["attribute_given_as"] = "component_id"
+    feats["axis_is_numpy_integer"] = False
     if style != "plain":
-        if not q["attr"].startswith(("pix", "world")) and indexed is None:
-            cid = q["attr"]
         if "percentile" in kw:
-            kw["percentile"] = np.float64(kw["percentile"]) if rng.random() < 0.5 else np.float32(kw["percentile"])
+            # (float32 percentiles are not generated: numpy then interpolates with float32 weights, 1e-8 relative)
+            kw["percentile"] = np.int64(kw["percentile"]) if float(kw["percentile"]).is_integer() and rng.random() < 0.5 \
+                else np.float64(kw["percentile"])
         if "n_chunk_max" in kw:
             kw["n_chunk_max"] = np.int64(kw["n_chunk_max"])
         if isinstance(kw["axis"], int):
             kw["axis"] = np.int64(kw["axis"])
+            feats["axis_is_numpy_integer"] = True
         elif isinstance(kw["axis"], tuple):
             kw["axis"] = tuple(np.int64(a) for a in kw["axis"])
         kw["finite"], kw["positive"] = np.bool_(kw["finite"]), np.bool_(kw["positive"])
         ctx.count("stat_numpy_scalar_arguments")
-    feats["argument_style"] = style
+    if q.get("argument_style") is None and rng.random() < 0.01 and indexed is None \
+            and not q["attr"].startswith(("pix", "world")):
+        cid = q["attr"]          # the documented alternative: the attribute named by its label
+        feats["attribute_given_as"] = "label"
+        ctx.count("stat_attribute_given_as_label")
+    feats["scalar_arguments"] = "numpy" if style != "plain" else "python"
     nq = int(keep.sum())
     nontrivial = nq >= 2 and (q["sel_kind"] != "none" or view is not None or q["axis"] is not None
                               or feats["chunking"] == "chunked_reduction")
@@ -504,6 +523,9 @@ def run_stat_query(ctx, rng, ds, q, api="compute_statistic", indexed=None, sel=N
     ctx.count("stat_view_%s" % q["view_kind"])
     ctx.count("stat_axis_%s" % q["axis_kind"])
     ctx.count("stat_attr_%s" % feats["attr_kind"])
+    if q["attr"] == "v":
+        feats["attr_layout"] = ds.layout_v
+        ctx.count("stat_layout_%s" % ds.layout_v)
     ctx.count("stat_chunking_%s" % feats["chunking"])
     if feats["view_zero_size"]:
         ctx.count("stat_zero_size_view")
@@ -719,6 +741,13 @@ def run_hist_query(ctx, rng, ds, q, api="compute_histogram", layer_call=None, se
         return
     state, fullmask = sel
     feats = hist_feats(ds, q, api)
+    if layer_call is None:
+        q["numpy_scalars"] = rng.random() < 0.2
+        q["by_label"] = rng.random() < 0.01 and not q["attr"].startswith(("pix", "world"))
+        if q["numpy_scalars"]:
+            ctx.count("hist_numpy_scalar_arguments")
+    feats["attribute_given_as"] = "label" if q.get("by_label") else "component_id"
+    feats["scalar_arguments"] = "numpy" if q.get("numpy_scalars") else "python"
     lo, hi = q["lo"], q["hi"]
     # ---- domain
     if lo == hi:
@@ -774,7 +803,13 @@ def run_hist_query(ctx, rng, ds, q, api="compute_histogram", layer_call=None, se
                 kw["log"] = [q["log"]]
             if q["weights"] is not None:
                 kw["weights"] = cid_of(ds, q["weights"])
-            got = ds.data.compute_histogram([cid_of(ds, q["attr"])], **kw)
+            xcid = cid_of(ds, q["attr"])
+            if q.get("numpy_scalars"):
+                kw["bins"] = [np.int64(q["bins"])]
+                kw["range"] = [(np.float64(rng_arg[0]), np.float64(rng_arg[1]))]
+            if q.get("by_label"):
+                xcid = q["attr"]
+            got = ds.data.compute_histogram([xcid], **kw)
         g = np.asarray(got, dtype=float)
     except Exception as exc:
         sig = dict(feats)
@@ -1103,6 +1138,290 @@ def run_hist_through_layer(ctx, rng, ds, q, sel=None):
             ds.dc.remove_subset_group(g)
 
 
+# ---------------------------------------------------------------- histories of calls on the same objects
+def fault_calls(ds, other):
+    """Calls that are expected to raise (what they raise is not part of C10); valid calls must be unaffected afterwards."""
+    d = ds.data
+    v = d.id["v"]
+    return [lambda: d.compute_statistic("nonsense", v),
+            lambda: d.compute_statistic("percentile", v),
+            lambda: d.compute_statistic("sum", v, axis=ds.nd + 2),
+            lambda: d.compute_statistic("sum", other.id["zz"]),
+            lambda: d.compute_statistic("sum", v, subset_state=other.id["zz"] > 0),
+            lambda: d.compute_statistic("mean", v, view=(slice(None),) * (ds.nd + 1)),
+            lambda: d.compute_histogram([v, v, v], range=[(0, 1)] * 3, bins=[2, 2, 2]),
+            lambda: d.compute_histogram([other.id["zz"]], range=[(0, 1)], bins=[2]),
+            lambda: d.compute_histogram([v], range=[(0, 1)], bins=[2], subset_state=other.id["zz"] > 0)]
+
+
+def run_history_block(ctx, tier):
+    """A few subset-state objects reused for many statistics / histograms of different attributes, filters, views and
+    chunk limits, interleaved with raising calls and repeated calls; after every few steps each state's mask is read
+    again and must be what it was."""
+    rng = ctx.rng
+    for _ in range(2):
+        ds = make_dataset(rng, tier, with_collection=True)
+        other = Data(zz=np.arange(3.), label="other")
+        pool = []
+        for kind in rng.sample(["ineq", "mask", "slice_state", "pixrange", "not_slice", "or", "and", "ineq", "mask"], 4):
+            sel = checked_selection(ctx, rng, ds, kind)
+            if sel is not None:
+                pool.append((kind, sel[0], sel[1]))
+        if not pool:
+            continue
+        # the same object referenced twice, and an equal-but-distinct copy
+        k0, s0, m0 = pool[0]
+        pool.append(("and", s0 & s0, m0.copy()))
+        if len(pool) > 2:
+            pool.append(("or", s0 | pool[1][1], m0 | pool[1][2]))
+        try:
+            pool.append((k0, s0.copy(), m0.copy()))
+        except Exception:
+            ctx.count("observed_subset_state_copy_failed")
+        faults = fault_calls(ds, other)
+        previous = "start"
+        last = None
+        for step in range(26):
+            kind, state, mask = pool[rng.randrange(len(pool))]
+            r = rng.random()
+            extra = {"history": "reused_state", "previous_step": previous}
+            if r < 0.15:
+                try:
+                    faults[rng.randrange(len(faults))]()
+                    ctx.count("history_fault_call_returned")
+                except Exception:
+                    ctx.count("history_fault_call_raised")
+                previous = "raising_call"
+                continue
+            if r < 0.3 and last is not None:
+                # the same call again
+                what, q, sel_, kind_ = last
+                ctx.count("history_repeated_calls")
+                extra["previous_step"] = "same_call"
+                if what == "stat":
+                    run_stat_query(ctx, rng, ds, q, sel=sel_, extra_feats=extra)
+                else:
+                    run_hist_query(ctx, rng, ds, q, sel=sel_)
+                previous = "same_call"
+                continue
+            if r < 0.75:
+                q = random_stat_query(rng, ds)
+                q["sel_kind"] = kind
+                ctx.count("history_stat_calls")
+                run_stat_query(ctx, rng, ds, q, sel=(state, mask), extra_feats=extra)
+                last = ("stat", q, (state, mask), kind)
+                previous = "statistic"
+            else:
+                q = random_hist_query(rng, ds, mask)
+                q["sel_kind"] = kind
+                ctx.count("history_hist_calls")
+                run_hist_query(ctx, rng, ds, q, sel=(state, mask))
+                last = ("hist", q, (state, mask), kind)
+                previous = "histogram"
+            if step % 5 == 4:
+                for kind2, st2, m2 in pool:
+                    ctx.count("history_mask_rechecks")
+                    try:
+                        gm = np.asarray(ds.data.get_mask(st2))
+                        same = gm.shape == m2.shape and bool(np.array_equal(gm, m2))
+                        if same:
+                            # what compute_statistic itself reads (possibly a memoized array)
+                            gm = np.asarray(st2.to_mask(ds.data, None))
+                            same = gm.shape == m2.shape and bool(np.array_equal(gm, m2))
+                    except Exception as exc:
+                        ctx.violation({"api": "get_mask", "kind": "exception", "exc": type(exc).__name__,
+                                       "history": "after_statistics", "selection": kind2}, {"error": repr(exc)})
+                        continue
+                    if not same:
+                        ctx.violation({"api": "get_mask", "kind": "selection_mask_changed_after_statistics",
+                                       "history": "after_statistics", "selection": kind2},
+                                      {"shape": ds.shape, "selection": describe_state(st2), "expected": m2, "got": gm})
+    ctx.count("history_blocks")
+
+
+def run_viewer_history_block(ctx, tier):
+    """One histogram layer and one profile layer kept alive while their settings change step by step (attribute, bins,
+    range, log, function, x axis, the subset's state); every read is compared.  Includes a range end moved by a
+    relative 1e-12 across a data value (an 'unchanged within tolerance' shortcut would serve the old counts)."""
+    from glue.viewers.histogram.state import HistogramLayerState, HistogramViewerState
+    from glue.viewers.profile.state import ProfileLayerState, ProfileViewerState
+    rng = ctx.rng
+    for _ in range(2):
+        ds = hist_dataset(rng, tier)
+        ds.dc = DataCollection([ds.data])
+        d = ds.data
+        kind = rng.choice(["none", "ineq", "mask", "pixrange"])
+        sel = checked_selection(ctx, rng, ds, kind)
+        if sel is None:
+            continue
+        state, mask = sel
+        group = None
+        if state is None:
+            layer = d
+        else:
+            group = ds.dc.new_subset_group(subset_state=state, label="s")
+            layer = group.subsets[0]
+        # ---- histogram layer
+        hv = HistogramViewerState()
+        hl = HistogramLayerState(viewer_state=hv, layer=layer)
+        hv.layers.append(hl)
+        prev_q = None
+        for step in range(10):
+            if prev_q is not None and rng.random() < 0.4 and ds.kinds[prev_q["attr"]] != "float32":
+                # (not for float32 attributes: a 1e-12 step is far below their own resolution and numpy compares the
+                #  range end with them in float32)
+                # nudge: the upper end moves by 1e-12 relative just below / back onto the largest value in range
+                q = dict(prev_q)
+                x = ds.raw[q["attr"]]
+                inr = x[mask & np.isfinite(x) & (x >= q["lo"]) & (x <= q["hi"])]
+                if inr.size and inr.max() > q["lo"] and inr.max() != 0:
+                    top = float(inr.max())
+                    q["hi"] = top if q["hi"] != top else float(np.nextafter(top, -np.inf)) if rng.random() < 0.5 \
+                        else top * (1 - 1e-12) if top > 0 else top * (1 + 1e-12)
+                    q["range_kind"] = "nudged_by_1e-12"
+                    ctx.count("viewer_history_nudged_range")
+            else:
+                q = random_hist_query(rng, ds, mask)
+                q["weights"], q["reversed"], q["log"] = None, False, bool(q["log"])
+                if q["attr"] == "c":
+                    q["attr"] = "i"
+            q["sel_kind"] = kind
+            prev_q = q
+
+            def layer_call(state_, rng_arg, q=q):
+                hv.x_att = cid_of(ds, q["attr"])
+                hv.x_log = q["log"]
+                hv.hist_x_min, hv.hist_x_max = rng_arg
+                hv.hist_n_bin = q["bins"]
+                edges, values = hl.histogram
+                if len(values) != q["bins"]:
+                    raise AssertionError("histogram has %d bins, %d requested" % (len(values), q["bins"]))
+                return values
+            ctx.count("viewer_history_histogram_reads")
+            run_hist_query(ctx, rng, ds, q, api="HistogramLayerState.histogram", layer_call=layer_call, sel=(state, mask))
+        # ---- profile layer
+        pv = ProfileViewerState()
+        pl = ProfileLayerState(viewer_state=pv, layer=layer)
+        pv.layers.append(pl)
+        cur_mask, cur_kind = mask, kind
+        for step in range(8):
+            attr = pick_attr(rng, ds, ("v", "i", "der", "mg", "u1"))
+            stat = rng.choice(["maximum", "minimum", "mean", "median", "sum"])
+            k = rng.randrange(ds.nd)
+            if group is not None and rng.random() < 0.35:
+                sel2 = checked_selection(ctx, rng, ds, rng.choice(["ineq", "mask", "pixrange", "empty"]))
+                if sel2 is not None:
+                    group.subset_state = sel2[0]
+                    cur_mask, cur_kind = sel2[1], "changed_in_place"
+                    ctx.count("viewer_history_subset_state_changed")
+            vals = ds.raw[attr]
+            keep = cur_mask & np.isfinite(vals)
+            axes = tuple(a for a in range(ds.nd) if a != k)
+            exp = ref_statistic(stat, vals, keep, axes)
+            ctx.evaluation(["profile_history", ds.kinds[attr], stat, cur_kind, list(ds.shape), k], int(keep.sum()) >= 2)
+            ctx.count("viewer_history_profile_reads")
+            feats = {"api": "ProfileLayerState.profile", "attr_kind": ds.kinds[attr], "stat": stat, "selection": cur_kind,
+                     "history": "settings_changed_step_by_step", "ndim": ds.nd}
+            try:
+                pv.x_att = d.pixel_component_ids[k]
+                pv.function = stat
+                pl.attribute = d.id[attr]
+                prof = pl.profile
+                if prof is None:
+                    prof = pl.profile
+            except Exception as exc:
+                ctx.violation(dict(feats, kind="exception", exc=type(exc).__name__), {"error": repr(exc)[:300]})
+                continue
+            if prof is None:
+                ctx.count("excluded_profile_unavailable")
+                continue
+            y = np.asarray(prof[1], dtype=float)
+            if np.all(np.isnan(exp)):
+                ok = len(y) == 0 or (y.shape == exp.shape and bool(np.all(np.isnan(y))))
+            else:
+                kept = vals[keep]
+                ok = y.shape == exp.shape and close(y, exp, 1e-9, float(np.max(np.abs(kept))) if kept.size else 0.0)
+            if not ok:
+                ctx.violation(dict(feats, kind="shape_mismatch" if y.shape != exp.shape and len(y) else "value_mismatch"),
+                              {"shape": ds.shape, "attr": attr, "statistic": stat, "x_axis": k, "expected": exp, "got": y,
+                               "full_mask": cur_mask})
+        if group is not None:
+            ds.dc.remove_subset_group(group)
+    ctx.count("viewer_history_blocks")
+
+
+# ---------------------------------------------------------------- larger datasets, dask-backed attributes
+BIG_SHAPES = [(300,), (2000,), (5000,), (40, 30), (12, 10, 9), (6, 5, 4, 5), (150, 2)]
+
+
+def run_big_block(ctx, tier, k):
+    """Enough rows to leave numpy's small-array paths (medians / percentiles / histograms of hundreds to thousands of
+    values with duplicates) and chunk limits far below, near and above the size, with selections that leave whole
+    chunks without a selected value."""
+    rng = ctx.rng
+    shape = BIG_SHAPES[k % len(BIG_SHAPES)]
+    ds = make_dataset(rng, tier, shape=shape)
+    for j in range(10):
+        q = random_stat_query(rng, ds)
+        if j % 2 == 0 and ds.nd >= 2:
+            keep = rng.randrange(ds.nd)
+            q.update({"view_kind": "none", "view": None, "axis": tuple(a for a in range(ds.nd) if a != keep),
+                      "axis_kind": "partial", "kept_axis": keep,
+                      "n_chunk_max": rng.choice([1, 7, ds.size // 50 + 1, ds.size // 3, ds.size - 1, ds.size, ds.size + 1]),
+                      "sel_kind": rng.choice(["pixrange_kept", "pixrange_kept", "ineq", "mask", "none", "or"])})
+            ctx.count("big_chunked_with_possibly_empty_chunks")
+        q["attr"] = pick_attr(rng, ds, ("v", "v", "i", "f4", "u1", "mg", "der"))
+        ctx.count("big_stat_queries")
+        run_stat_query(ctx, rng, ds, q)
+    for j in range(5):
+        sel_kind = rng.choice(["none", "ineq", "mask", "pixrange"])
+        sel = checked_selection(ctx, rng, ds, sel_kind)
+        if sel is None:
+            continue
+        qx = random_hist_query(rng, ds, sel[1])
+        qx["sel_kind"] = sel_kind
+        ctx.count("big_hist_queries")
+        if j == 4:
+            run_hist2d_query(ctx, rng, ds, qx, random_hist_query(rng, ds, sel[1]), sel)
+        else:
+            run_hist_query(ctx, rng, ds, qx, sel=sel)
+    ctx.count("big_blocks")
+
+
+def run_dask_block(ctx, tier):
+    """The same float values stored as a dask array (chunked) instead of a numpy array."""
+    import dask.array as da
+    rng = ctx.rng
+    for _ in range(3):
+        ds = make_dataset(rng, tier)
+        chunks = tuple(max(1, n // rng.choice([1, 2, 3])) for n in ds.shape)
+        ds.data.add_component(da.from_array(ds.raw["v"].copy(), chunks=chunks), "dk")
+        ds.raw["dk"] = ds.raw["v"]
+        ds.kinds["dk"] = "dask_float"
+        for j in range(8):
+            if j % 3 == 2:
+                sel_kind = rng.choice(["none", "ineq", "mask"])
+                sel = checked_selection(ctx, rng, ds, sel_kind)
+                if sel is None:
+                    continue
+                q = random_hist_query(rng, ds, sel[1])
+                q["attr"], q["sel_kind"] = "dk", sel_kind
+                x = ds.raw["dk"][sel[1]]
+                x = x[np.isfinite(x)]
+                if q["range_kind"] not in ("integers", "random", "outside", "zero_width", "nonpositive_log") and x.size:
+                    q["lo"], q["hi"], q["range_kind"] = float(x.min()), float(x.max()), "data_minmax"
+                    if q["log"] and q["lo"] <= 0:
+                        q["log"] = False
+                ctx.count("dask_hist_queries")
+                run_hist_query(ctx, rng, ds, q, sel=sel)
+            else:
+                q = random_stat_query(rng, ds)
+                q["attr"] = "dk"
+                ctx.count("dask_stat_queries")
+                run_stat_query(ctx, rng, ds, q)
+    ctx.count("dask_blocks")
+
+
 # ---------------------------------------------------------------- pixel-aligned datasets
 PERMS = {2: [((0, 1), "identity"), ((1, 0), "swap"), ((1, 0), "swap")],
          3: [((0, 1, 2), "identity"), ((0, 2, 1), "swap"), ((2, 1, 0), "swap"), ((1, 0, 2), "swap"),
@@ -1199,7 +1518,7 @@ def run_aligned_block(ctx, tier):
 
 # ---------------------------------------------------------------- magnitudes
 # upper range ends across magnitudes; the range is the data's own min/max, so selected values equal both ends
-MAGNITUDES = [0.003, 0.5, 1.0, 50.0, 3e4, 1e8, 2.5e8, 7e10, 1e12]
+MAGNITUDES = [1e-10, 3e-7, 0.003, 0.5, 1.0, 50.0, 3e4, 1e8, 2.5e8, 7e10, 1e12]
 
 
 def magnitude_column(rng, shape, top):
@@ -1238,7 +1557,13 @@ def run_magnitude_block(ctx, tier, mi):
 
             def query(attr):
                 x = ds.raw[attr][sel[1]] if sel[1].any() and rng.random() < 0.7 else ds.raw[attr]
-                if rng.random() < 0.75 or len(set(x.ravel().tolist())) < 2:
+                r = rng.random()
+                if r < 0.2 and len(set(x.ravel().tolist())) >= 2:
+                    # ends that agree with data values to a relative 1e-9 but include / exclude them
+                    a, b = sorted(rng.sample(sorted(set(x.ravel().tolist())), 2))
+                    lo, hi, rk = a * rng.choice([1 - 1e-9, 1 + 1e-9]), b * rng.choice([1 - 1e-9, 1 + 1e-9]), "data_values_nudged_1e-9"
+                    ctx.count("magnitude_hist_nudged_range")
+                elif r < 0.8 or len(set(x.ravel().tolist())) < 2:
                     lo, hi, rk = float(x.min()), float(x.max()), "data_minmax"
                 else:
                     lo, hi = sorted(rng.sample(sorted(set(x.ravel().tolist())), 2))
@@ -1295,27 +1620,30 @@ def setup(ctx):
 
 # ---------------------------------------------------------------- driver
 def cases(tier, seed):
-    grid = [["grid", si, sk] for si in range(len(GRID_SHAPES)) for sk in GRID_SELECTIONS]
-    grid += [["mag", mi, rep] for rep in range(1 if tier == "quick" else 8) for mi in range(len(MAGNITUDES))]
-    grid += [["aligned", i] for i in range(24 if tier == "quick" else 240)]
-    ns, nh, nv = N_STAT_BLOCKS[tier], N_HIST_BLOCKS[tier], N_VIEWER_BLOCKS[tier]
-    # interleave so that every shard (and a run cut by the time cap) sees every class
-    streams = [iter(grid), iter(["viewer", i] for i in range(nv)), iter(["hist", i] for i in range(nh)),
-               iter(["stat", i] for i in range(ns))]
-    weights = [len(grid), nv, nh, ns]
-    total = sum(weights)
-    emitted = [0, 0, 0, 0]
-    for step in range(1, total + 1):
-        # emit from the stream that is furthest behind its share
+    q = tier == "quick"
+    lists = [[["grid", si, sk] for si in range(len(GRID_SHAPES)) for sk in GRID_SELECTIONS],
+             [["mag", mi, rep] for rep in range(1 if q else 8) for mi in range(len(MAGNITUDES))],
+             [["aligned", i] for i in range(24 if q else 240)],
+             [["history", i] for i in range(32 if q else 320)],
+             [["viewer_history", i] for i in range(8 if q else 80)],
+             [["big", i] for i in range(7 if q else 56)],
+             [["dask", i] for i in range(4 if q else 40)],
+             [["viewer", i] for i in range(N_VIEWER_BLOCKS[tier])],
+             [["hist", i] for i in range(N_HIST_BLOCKS[tier])],
+             [["stat", i] for i in range(N_STAT_BLOCKS[tier])]]
+    # interleave so that every shard (and a run cut by the time cap) sees every class in proportion
+    weights = [len(x) for x in lists]
+    emitted = [0] * len(lists)
+    for step in range(sum(weights)):
         best = None
-        for j in range(4):
-            if emitted[j] < weights[j]:
-                lag = emitted[j] / weights[j]
+        for j, w in enumerate(weights):
+            if emitted[j] < w:
+                lag = (emitted[j] + 0.5) / w
                 if best is None or lag < best[0]:
                     best = (lag, j)
         j = best[1]
+        yield lists[j][emitted[j]]
         emitted[j] += 1
-        yield next(streams[j])
 
 
 def run_case(ctx, case):
@@ -1330,6 +1658,14 @@ def run_case(ctx, case):
         run_viewer_block(ctx, ctx.tier)
     elif kind == "aligned":
         run_aligned_block(ctx, ctx.tier)
+    elif kind == "history":
+        run_history_block(ctx, ctx.tier)
+    elif kind == "viewer_history":
+        run_viewer_history_block(ctx, ctx.tier)
+    elif kind == "big":
+        run_big_block(ctx, ctx.tier, case[1])
+    elif kind == "dask":
+        run_dask_block(ctx, ctx.tier)
     elif kind == "mag":
         run_magnitude_block(ctx, ctx.tier, case[1])
     else:
@@ -1338,7 +1674,16 @@ def run_case(ctx, case):
 
 def floors(counters, tier):
     out = []
-    need = {"stat_compared": 1500, "hist_compared": 800, "hist2d_compared": 150, "magnitude_hist_large_log": 25,
+    need = {"history_stat_calls": 150, "history_hist_calls": 80, "history_mask_rechecks": 300, "history_repeated_calls": 40,
+            "history_fault_call_raised": 40, "viewer_history_histogram_reads": 30, "viewer_history_nudged_range": 6,
+            "viewer_history_profile_reads": 25, "big_stat_queries": 15, "big_chunked_with_possibly_empty_chunks": 4,
+            "dask_stat_queries": 15, "dask_hist_queries": 5, "stat_numpy_scalar_arguments": 800,
+            "hist_numpy_scalar_arguments": 200, "stat_attr_float32": 150, "stat_attr_uint8": 150, "stat_attr_int8": 150,
+            "stat_attr_float_big_endian": 150, "stat_attr_int_big_endian": 150, "stat_attr_float_magnitude": 300,
+            "stat_view_empty_tuple": 100, "stat_view_list_of_slices": 100, "stat_layout_fortran_copy": 100,
+            "stat_layout_transposed_view": 100, "stat_layout_strided_view": 100, "stat_layout_reversed_view": 100,
+            "stat_layout_broadcast_stride0": 100, "magnitude_hist_nudged_range": 20,
+            "stat_compared": 1500, "hist_compared": 800, "hist2d_compared": 150, "magnitude_hist_large_log": 25,
             "magnitude_hist_large_linear": 10, "aligned_stat_cyclic": 60, "aligned_stat_swap": 60,
             "aligned_stat_shortcut_cyclic": 25, "aligned_mask_compared": 150, "aligned_hist_queries": 30, "hist_value_at_positive_log_upper_end": 40, "stat_chunking_chunked_reduction": 300,
             "stat_minimal_subarray_configuration": 400, "stat_padding_configuration": 200,
